@@ -36,7 +36,12 @@ def run(chk, tier):
     st = St()
     # private free helpers of the module (e.g. an extracted `elapsed(start, end)`) are part of the expression being decided: inlined; the named
     # predicate `exceeds` (R1e) and every method stay opaque
-    engu = Engine(prog, inline_depth=2, inline_filter=lambda c: bool(re.fullmatch(r'trippy_core::strategy::\w+', c)) and not c.endswith('::exceeds'))
+    # … and so are private methods of Strategy through which update_round reaches publish_trace (an extracted `complete_round`)
+    from ..callgraph import CallGraph
+    cg8 = CallGraph(prog)
+    fpub = prog.find(r'Strategy::publish_trace$')
+    to_pub = {c for c in prog.fns if re.search(r'::strategy::Strategy::<', c) and c != fpub['path'] and c != f['path'] and fpub['path'] in cg8.reachable([c])} if hasattr(cg8, 'reachable') else set()
+    engu = Engine(prog, inline_depth=2, inline_filter=lambda c: (bool(re.fullmatch(r'trippy_core::strategy::\w+', c)) and not c.endswith('::exceeds')) or c in to_pub)
     outs = engu.run(f, [engu.sym_ref(st, 'self'), engu.sym_ref(st, 'st')], st)
     cfgf = lambda n: r'self\.config\.%s' % n
     atoms = [
@@ -85,6 +90,25 @@ def run(chk, tier):
                      key='R1e|some=%d' % some)
     if seen != {0, 1}:
         chk.fail('R1e', 'exceeds:coverage', fn_loc(fe), 'exceeds() does not distinguish None / Some', key='R1e|coverage')
+
+    # ---- R1p: who may publish ------------------------------------------------------------------------------
+    # the policy table above is worth nothing if a round can also be published from somewhere else: every call chain from the tracing loop to
+    # publish_trace passes through update_round (directly, or through private helpers that only update_round calls)
+    chk.rule('R1p', 'rounds are published only by update_round', floor=1)
+
+    def only_from_update_round(p_, depth=0):
+        if p_ == f['path']:
+            return True
+        if depth > 3:
+            return False
+        cs = [c for c in cg8.callers(p_) if '::tests::' not in c]
+        return bool(cs) and all(only_from_update_round(c, depth + 1) for c in cs)
+    bad_pub = [c for c in cg8.callers(fpub['path']) if '::tests::' not in c and not only_from_update_round(c)]
+    if bad_pub:
+        chk.fail('R1p', 'publishers', fn_loc(prog.fns[bad_pub[0]]), 'publish_trace is reachable from %s without passing through update_round: a round can be published outside the timing policy (min / grace / max)' % [short(c) for c in bad_pub],
+                 key='R1p|publishers|%s' % ','.join(sorted(short(c) for c in bad_pub)))
+    else:
+        chk.ok('R1p', 'publishers', 'publish_trace ← %s only' % sorted(short(c) for c in cg8.callers(fpub['path'])))
 
     # ---- R2: completion reason -------------------------------------------------------------------------
     chk.rule('R2', 'completion reason is TargetFound iff target_found()', floor=2)
